@@ -235,7 +235,10 @@ package checkers
 //@   ensures @no-rules-no-engine old(unbox(info.Params["rules"].Value, "string")) == "" ==> (result1 == nil && result0.engine == nil)
 //@   call newErrorHandler requires @legacy-flag-means-all arg0 == ite(unbox(info.Params["failOn"].Value, "string") == "" && unbox(info.Params["failOnError"].Value, "bool"), "all", unbox(info.Params["failOn"].Value, "string"))
 //@   loop 1 body @disable-entry-recorded ite(hasPrefix(trimSpace(splitAt(unbox(info.Params["disable"].Value, "string"), ",", $i)), "#"), disabledTags[substr(trimSpace(splitAt(unbox(info.Params["disable"].Value, "string"), ",", $i)), 1, len(trimSpace(splitAt(unbox(info.Params["disable"].Value, "string"), ",", $i))))], disabledGroups[trimSpace(splitAt(unbox(info.Params["disable"].Value, "string"), ",", $i))])
-//@   loop 3 body @pattern-without-match-is-fatal len(filenames) != 0 || err != nil
+//@   loop 3 body @pattern-without-match-is-fatal len(filenames) != 0
+//@   loop 3 invariant @counted-files-were-loaded loaded >= 0 && (loaded > 0 ==> $anyLoaded(engine))
+//@   loop 4 invariant @counted-files-were-loaded loaded >= 0 && (loaded > 0 ==> $anyLoaded(engine))
+//@   ensures @engine-installed-only-if-a-file-loaded (result1 == nil && result0 != nil && result0.engine != nil) ==> $anyLoaded(result0.engine)
 
 // ---- C17: every loaded rule group becomes exactly one checker carrying the group's own metadata
 
